@@ -137,9 +137,33 @@ def kernel(rel, fired, l2=True):
 # --------------------------------------------------------------------------------------------------------
 class Query:
     def __init__(self, name, ctext, defines=(), trig=False, timeout=30, function="", where="", group=None,
-                 extra_axioms="", want_model=(), zero_axiom=False, unwind=None, loop_contracts=False, u2r=False):
+                 extra_axioms="", want_model=(), zero_axiom=False, unwind=None, loop_contracts=False, u2r=False, explog=False):
         self.__dict__.update(locals())
         del self.__dict__['self']
+
+
+def explog_axioms(forms):
+    """libm exp/log stay uninterpreted (Real -> Real).  Ground instances, for the argument terms that occur, of: exp strictly increasing, log strictly
+    increasing on the positive reals, exp(log a) = a for a > 0.  Quantifier-free, so a wrong body still yields `sat` (a refutation), not `unknown`."""
+    E, L = '__CPROVER_uninterpreted_exp', '__CPROVER_uninterpreted_log'
+    la = fp2real.uf_args(forms, L)
+    ea = fp2real.uf_args(forms, E)
+    ax = []
+    for a in la:
+        ax.append('(assert (=> (< 0.0 %s) (= (%s (%s %s)) %s)))' % (a, E, L, a, a))
+        t = '(%s %s)' % (L, a)
+        if t not in ea:
+            ea.append(t)
+    for a in la:
+        for b in la:
+            if a != b:
+                ax.append('(assert (=> (and (< 0.0 %s) (< %s %s)) (< (%s %s) (%s %s))))' % (a, a, b, L, a, L, b))
+    for a in ea:
+        for b in ea:
+            if a != b:
+                ax.append('(assert (=> (< %s %s) (< (%s %s) (%s %s))))' % (a, b, E, a, E, b))
+                ax.append('(assert (=> (= %s %s) (= (%s %s) (%s %s))))' % (a, b, E, a, E, b))
+    return ax
 
 
 class QResult:
@@ -370,6 +394,8 @@ def run_query(q, bdir, inc=()):
         forms, ax, r.n_trig = trig_axioms(forms, getattr(q, 'zero_axiom', False))
     if q.extra_axioms:
         ax.append(q.extra_axioms)
+    if getattr(q, 'explog', False):
+        ax += explog_axioms(forms)
     body = "\n".join(forms)
     gv = ""
     names = []
